@@ -17,7 +17,7 @@ use sos_vault::{AccessPoint, SecretAccess, Vault};
 pub const META: PropertyMeta = PropertyMeta {
     id: "C12",
     level: "exploration",
-    rule: "proptest-generated content history (1..15 account-level ops of the C01 set incl. flag, name and description edits, deletes and moves; all secret kinds) followed by a generated sequence of 1..4 rewrites drawn with repetition from {compact_folder, compact_account, change_folder_password, change_account_password, change_cipher(cipher,kdf)} on a backend x cipher x KDF cell. After every rewrite: the account still serves exactly the model (C01 oracle), replay == memory == mirror == model for every folder (C02 oracle), a rewritten folder's log is one CreateVault plus one CreateSecret per live secret, the old folder password no longer unlocks the persisted vault while the delegated one does, no AeadPack in the folder's log or persisted vault decrypts under the old derived key, and (file system) none of the pre-change ciphertext byte strings occurs in any file of that folder; at the end a fresh instance signs in with the current account password, serves the model, and sign-in with a replaced account password fails. Non-trivial = the content history changed flags or a description and deleted or moved a secret before the rewrites. Distinct = distinct case.",
+    rule: "proptest-generated content history (1..15 account-level ops of the C01 set incl. flag, name and description edits, deletes and moves; all secret kinds) followed by a generated sequence of 1..4 rewrites drawn with repetition from {compact_folder, compact_account, change_folder_password, change_account_password, change_cipher(cipher,kdf)} on a backend x cipher x KDF cell; 0..2 further content ops (incl. folder create / delete) are applied after every rewrite without a re-login in between. After every rewrite: the account still serves exactly the model (C01 oracle), replay == memory == mirror == model for every folder (C02 oracle), a rewritten folder's log is one CreateVault plus one CreateSecret per live secret, the old folder password no longer unlocks the persisted vault while the delegated one does, no AeadPack in the folder's log or persisted vault decrypts under the old derived key, and (file system) none of the pre-change ciphertext byte strings occurs in any file of that folder; at the end a fresh instance signs in with the current account password, serves the model, and sign-in with a replaced account password fails. Non-trivial = the content history changed flags or a description and deleted or moved a secret before the rewrites. Distinct = distinct case.",
     assumptions: &[
         "sqlite is checked on the logical rows of the folder only (free pages / WAL are the storage engine's business)",
         "leftover-ciphertext scan on the file system covers files in the vaults directory whose name starts with the folder id (vault, event log, snapshots)",
@@ -38,6 +38,10 @@ pub fn def() -> PropertyDef {
 pub struct Case {
     pub history: History,
     pub rewrites: Vec<Op>,
+    /// content operations (incl. folder create / delete) applied after rewrite #i, so that
+    /// rewrites are interleaved with ordinary edits without a re-login in between
+    #[serde(default)]
+    pub between: Vec<Vec<Op>>,
 }
 
 struct OldState {
@@ -261,6 +265,14 @@ async fn run_case(w: &mut AcctWorld, c: &Case) -> CheckResult {
         for fid in &shape {
             check_log_shape(w, fid, &label).await?;
         }
+        if let Some(ops) = c.between.get(i) {
+            for (j, op) in ops.iter().enumerate() {
+                w.apply(op).await.map_err(|f| Failure::new(f.signature, format!("content op #{j} after {label} {}: {}", crate::prop_c01::op_label(op), f.message)))?;
+            }
+            if !ops.is_empty() {
+                w.check_reads(&format!("content ops after {label}")).await?;
+            }
+        }
     }
     // fresh instance with the current password serves the model
     w.reopen().await.map_err(|f| Failure::new(format!("c12/{}", f.signature), format!("after the rewrites: {}", f.message)))?;
@@ -278,7 +290,12 @@ async fn run_case(w: &mut AcctWorld, c: &Case) -> CheckResult {
 }
 
 fn case_strategy(max_ops: usize) -> impl Strategy<Value = Case> {
-    (history_strategy(Mix::Content, max_ops), proptest::collection::vec(rewrite_strategy(), 1..5)).prop_map(|(history, rewrites)| Case { history, rewrites })
+    (
+        history_strategy(Mix::Content, max_ops),
+        proptest::collection::vec(rewrite_strategy(), 1..5),
+        proptest::collection::vec(proptest::collection::vec(crate::engine_acct::op_strategy(Mix::Content), 0..3), 5),
+    )
+        .prop_map(|(history, rewrites, between)| Case { history, rewrites, between })
 }
 
 fn run(shard: &Shard, rep: &mut Report) {
